@@ -213,7 +213,7 @@ impl<'a, C: KeyColl> KeySession<'a, C> {
         self.mine.clear();
         self.now = 0;
         let sep = if snap.is_empty() { "" } else { "," };
-        self.tr.line(&format!("\"ev\":\"reset\",\"coll\":\"{}\",\"cap\":{}{}{}", C::NAME, cap, sep, snap));
+        self.tr.line(&format!("\"ev\":\"reset\",\"coll\":\"{}\",\"cap\":{},\"se\":{}{}{}", C::NAME, cap, self.snap_every, sep, snap));
     }
     pub fn live_dup(&self, k: i32, t: i32) -> bool {
         self.mine.iter().any(|&(kk, e)| kk == k && e > t)
@@ -599,6 +599,7 @@ pub fn run_random<C: KeyColl>(tr: &mut Trace, cfg: &RandCfg) {
     let caps = [0usize, 1, 8, 9, 33];
     let mut s: KeySession<C> = KeySession::new(tr, cfg.keys, caps[(rng.next() % 5) as usize], 7);
     s.snap_every = cfg.snap_every;
+    s.reset(s.cap);
     let mut in_seg = 0u64;
     let mut done = 0u64;
     let mut clock = 0i32;
